@@ -18,6 +18,16 @@ NEEDS = {
     'C13-r7m2': 'symmetric form with 0.25 < frac(R/res) < 0.5 and a point near +R (own count with round())',
     'C14-r7m1': 'one caster, two casts whose origins are different points of the same cell',
     'C14-r7m2': 'an oblique ray that crosses no cell border along one axis (step from the indexes, tMax guarded by the direction)',
+    'C10-r8m1': 'roll != 0, pitch != 0 and cos(roll) != cos(yaw) together (written-out entry (0,1) of Rz Ry Rx)',
+    'C10-r8m2': 'the scalar overload SphericalTransform::elevation(x, y, z) (arguments handed on in the old order)',
+    'C11-r8m1': 'on one thread, T * tilted pose then T * planar pose (static thread_local rotation, init() skips exact zeros)',
+    'C11-r8m2': 'a non-integral sigma scale (unsigned int parameter)',
+    'C12-r8m1': 'a pose whose pitch is stored in (pi/2, 3pi/2) (cosine recovered from the sine)',
+    'C12-r8m2': 'two or more threads inside operator*(Affine3d, Pose3D) at once (function-local static; outside the quantifier of C12)',
+    'C13-r8m1': 'two centre-query results of one mapping alive together (reference to a scratch member)',
+    'C13-r8m2': 'getCellCentersPositionAlong(axis) or a copy of the mapping (tables reserve()d, not resize()d)',
+    'C14-r8m1': 'a ray confined to one line of cells going in the negative direction of that axis (fast path)',
+    'C14-r8m2': 'polyline chaining on one caster: cast(caster.getEndPoint(), p2)',
     'C01-r8m1': 'a longitude within about 3e-7 rad of the +-90 deg meridians (cos derived from sin: cancellation, a rounding statement)',
     'C01-r8m2': 'southern hemisphere with geodetic latitude at or below about -45.2 deg (fabs(Z)/sin(latitude) height branch)',
     'C02-r8m1': 'a point far from the anchor horizontally and at a different height (height added along the anchor up axis)',
